@@ -781,6 +781,13 @@ func (p *bprover) lenOf1(v ssa.Value) blin {
 		}
 	case *ssa.MakeSlice:
 		return p.linOf(x.Len)
+	case *ssa.BinOp:
+		// string concatenation: len(a + b) = len(a) + len(b)
+		if x.Op == token.ADD && bIsString(x.Type().Underlying()) {
+			if r, ok := p.lenOf(x.X).add(p.lenOf(x.Y)); ok {
+				return r
+			}
+		}
 	case *ssa.Slice:
 		lo := blconst(0)
 		if x.Low != nil {
